@@ -258,9 +258,9 @@ PER_COPY_AFTER_REORDER_FLOOR = {'quick': 140, 'thorough': 6100}
 UNI_VARIANT_FLOOR = {
     'quick': {'set': 500, 'del': 410, 'get': 100, 'in': 94, 'first': 440, 'last': 500, 'before-item': 500,
               'before-ref': 480, 'after-item': 460, 'after-ref': 480, 'pop': 100, 'setdefault': 87, 'update': 160},
-    'thorough': {'set': 31000, 'del': 18000, 'get': 3300, 'in': 2500, 'first': 22000, 'last': 23000,
-                 'before-item': 28000, 'before-ref': 28000, 'after-item': 27000, 'after-ref': 27000, 'pop': 3100,
-                 'setdefault': 1900, 'update': 4000},
+    'thorough': {'set': 31000, 'del': 18000, 'get': 8200, 'in': 7500, 'first': 22000, 'last': 23000,
+                 'before-item': 28000, 'before-ref': 28000, 'after-item': 27000, 'after-ref': 27000, 'pop': 7900,
+                 'setdefault': 6300, 'update': 12000},
 }
 UNI_START_FLOOR = {
     'quick': {'dict': 690, 'pairs': 60, 'parsed-str': 270, 'parsed-bytes': 250, 'parsed-lines': 34, 'iter': 35,
